@@ -12,7 +12,8 @@ from ..callgraph import CallGraph
 from ..cfg import cfg_of
 from ..fold import (Folder, Instance, Opaque, FuncVal, Env, FoldRaise,
                     ClassVal)
-from .. import boolfn
+from .. import boolfn, pathsum
+from ..pathsum import struct, show, is_const
 
 AUTH = 'minecraft.authentication'
 
@@ -21,11 +22,13 @@ def run(report, db, tier):
     ref = json.load(open(os.path.join(VERIF, 'reference', 'yggdrasil.json')))
     report.explanation = (
         '`authenticated` and Profile.__bool__ are folded over every '
-        'truthiness combination; every operation\'s request (server, '
-        'endpoint, payload keys and sources) is extracted from the AST and '
-        'compared with the reference table; stores to the token are checked '
-        'to be dominated by the raise-on-error call; the error mapper is '
-        'checked path by path.')
+        'truthiness combination; every operation is summarised path by '
+        'path (vp.pathsum: requests made, stores to the token, branch '
+        'decisions, outcome, with helper calls inlined and values traced '
+        'through temporaries), and the summaries are compared with the '
+        'reference table: request shape, stores only after the error check '
+        'returned, exactly the returned values stored, the error mapper\'s '
+        'classification of replies, and the result of each operation.')
     cg = CallGraph(db)
     mod = db.modules.get(AUTH)
     if mod is None:
@@ -34,10 +37,11 @@ def run(report, db, tier):
     prof = db.get_class(AUTH, 'Profile')
     F = Folder(db)
     predicate(report, db, F, tok, prof)
-    requests_shape(report, db, F, cg, mod, tok, ref)
-    stores(report, db, cg, tok, ref)
-    error_mapping(report, db, cg, mod)
-    results(report, db, cg, tok)
+    S = Summaries(db, cg, tok)
+    requests_shape(report, db, F, S, mod, tok, ref)
+    stores(report, db, S, tok, ref)
+    error_mapping(report, db, S, mod)
+    results(report, db, S, tok)
 
 
 # ---------------------------------------------------------------------------
@@ -93,444 +97,573 @@ def predicate(report, db, F, tok, prof):
 
 
 # ---------------------------------------------------------------------------
-def src_text(e, fi):
-    """Normalised description of where a payload value comes from."""
-    t = ast.unparse(e)
+class Summaries(object):
+    """Path summaries of the operations, with the two module-level units
+    (_make_request, _raise_from_response) kept as opaque calls and every
+    other in-repo helper inlined."""
+
+    def __init__(self, db, cg, tok):
+        self.db, self.cg, self.tok = db, cg, tok
+        self.mk = db.get_func(AUTH, '_make_request')
+        self.rf = db.get_func(AUTH, '_raise_from_response')
+        self.cache = {}
+
+    def paths(self, fi, opaque_units=True):
+        key = (fi, opaque_units)
+        if key not in self.cache:
+            opaque = {self.mk, self.rf} if opaque_units else set()
+            auth = self.db.own_method(self.tok, 'authenticated')
+            if auth is not None:
+                opaque.add(auth)
+            ps = pathsum.PathSum(self.db, self.cg, opaque=opaque,
+                                 inline_pred=lambda t: t not in opaque
+                                 and not pathsum_known(t))
+            self.cache[key] = ps.run(fi)
+        return self.cache[key]
+
+    def op(self, name):
+        fi = self.db.own_method(self.tok, name)
+        if fi is None:
+            raise AnalysisError('AuthenticationToken.%s vanished' % name)
+        return fi, self.paths(fi)
+
+    def requests(self, path):
+        return [e for e in path.calls() if e.calls(self.mk)]
+
+    def checks(self, path):
+        return [e for e in path.calls() if e.calls(self.rf)]
+
+
+_KNOWN = None
+
+
+def pathsum_known(t):
+    global _KNOWN
+    if _KNOWN is None:
+        from ..normalize import known_units
+        _KNOWN = known_units()[0]
+    return t.qualname in _KNOWN.get(t.module.name, ())
+
+
+def src(t, fi):
+    """Where a payload value comes from, in the reference's vocabulary."""
     me = fi.params[0] if fi.kind == 'instance' and fi.params else None
-    if isinstance(e, ast.Name) and e.id in fi.params:
-        return 'param:%s' % e.id
-    if me and t.startswith(me + '.'):
-        return 'self.' + t[len(me) + 1:]
-    return t
+    if t[0] == 'sym' and t[1] in fi.params and t[1] != me:
+        return 'param:%s' % t[1]
+    if t[0] == 'const':
+        return t[1]
+    if t[0] == 'dict' and all(is_const(k) for k, _ in t[1]):
+        return {k[1]: src(v, fi) for k, v in t[1]}
+    chain = []
+    x = t
+    if x[0] == 'call' and x[1][0] in ('attr', 'fn') and not x[2] and \
+            not x[3]:
+        # self.profile.to_dict()
+        f = x[1]
+        if f[0] == 'fn' and f[2] is not None:
+            inner = src(f[2], fi)
+            return '%s.%s()' % (inner, f[1].name)
+        if f[0] == 'attr':
+            return '%s.%s()' % (src(f[1], fi), f[2])
+    while x[0] == 'attr':
+        chain.append(x[2])
+        x = x[1]
+    if x[0] == 'sym' and x[1] == me and chain:
+        return 'self.' + '.'.join(reversed(chain))
+    return show(t)
 
 
-def requests_shape(report, db, F, cg, mod, tok, ref):
+def is_status(t, req):
+    """t is <reply>.status_code of the request result `req` (or of the
+    parameter `req` when that is a symbol)."""
+    return t[0] == 'attr' and t[2] == 'status_code' and \
+        struct(t[1]) == struct(req)
+
+
+def status_cond(path, req, code):
+    """Polarity of `reply.status_code == code` on the path, or None."""
+    for a, pol, _ in path.conds:
+        if a[0] == 'op' and a[1] == '==' and len(a[2]) == 2:
+            x, y = a[2]
+            if is_status(x, req) and y in code:
+                return pol
+            if is_status(y, req) and x in code:
+                return pol
+    return None
+
+
+C204 = (('const', 204),)
+C200 = (('const', 200), ('ext', 'requests.codes.ok'),
+        ('op', 'index', (('ext', 'requests.codes'), ('const', 'ok'))))
+
+
+def requests_shape(report, db, F, S, mod, tok, ref):
     R = report.rule('R19.2', 'each operation posts the documented payload '
-                    'to the documented endpoint; _make_request posts JSON '
-                    'to server + "/" + endpoint')
-    mk = db.get_func(AUTH, '_make_request')
+                    'to the documented endpoint, once; _make_request posts '
+                    'JSON to server + "/" + endpoint')
     servers = {}
     for k, name in (('auth', 'AUTH_SERVER'), ('session', 'SESSION_SERVER')):
-        servers[name] = F.module_global(mod, name)
-        if servers[name] == ref['servers'][k]:
-            report.ok(R, '%s = %s' % (name, servers[name]))
+        servers[k] = F.module_global(mod, name)
+        if servers[k] == ref['servers'][k]:
+            report.ok(R, '%s = %s' % (name, servers[k]))
         else:
             report.violation(R, 'server:%s' % name, mod.path, None, None,
-                             '%s is %r, documented %r' % (name, servers[name],
+                             '%s is %r, documented %r' % (name, servers[k],
                                                           ref['servers'][k]))
     n = 0
     for op, spec in sorted(ref['operations'].items()):
-        fi = db.own_method(tok, op)
-        if fi is None:
-            raise AnalysisError('AuthenticationToken.%s vanished' % op)
-        calls = [c for c in ast.walk(fi.node) if isinstance(c, ast.Call)
-                 and ast.unparse(c.func) == '_make_request']
-        if len(calls) != 1:
-            report.violation(R, 'request:count:%s' % op, fi.path, fi.node,
-                             fi.qualname, '%s performs %d requests'
-                             % (op, len(calls)))
-            continue
-        n += 1
-        c = calls[0]
-        if len(c.args) != 3:
-            raise AnalysisError('_make_request call shape', c, rel(fi.path))
-        sname = ast.unparse(c.args[0])
-        want_s = 'AUTH_SERVER' if spec['server'] == 'auth' \
-            else 'SESSION_SERVER'
-        ep = c.args[1].value if isinstance(c.args[1], ast.Constant) else None
+        fi, paths = S.op(op)
+        me = fi.params[0] if fi.kind == 'instance' else None
         probs = []
-        if sname != want_s:
-            probs.append('server %s (documented: %s)' % (sname, want_s))
-        if ep != spec['endpoint']:
-            probs.append('endpoint %r (documented: %r)' % (ep,
-                                                           spec['endpoint']))
-        payload = c.args[2]
-        if isinstance(payload, ast.Name):
-            pv = payload.id
-            d = None
-            extra = {}
-            for x in ast.walk(fi.node):
-                if isinstance(x, ast.Assign) and isinstance(
-                        x.targets[0], ast.Name) and x.targets[0].id == pv:
-                    d = x.value
-                if isinstance(x, ast.Assign) and isinstance(
-                        x.targets[0], ast.Subscript) and \
-                        ast.unparse(x.targets[0].value) == pv and \
-                        isinstance(x.targets[0].slice, ast.Constant):
-                    extra[x.targets[0].slice.value] = x
-            payload = d
-        else:
-            extra = {}
-        if not isinstance(payload, ast.Dict):
-            raise AnalysisError('payload of %s is not a dict display' % op,
-                                c, rel(fi.path))
-        got = {}
-        for k, v in zip(payload.keys, payload.values):
-            key = k.value if isinstance(k, ast.Constant) else ast.unparse(k)
-            if isinstance(v, ast.Dict):
-                sub = {}
-                for kk, vv in zip(v.keys, v.values):
-                    try:
-                        sub[kk.value] = F.eval(vv, Env(fi.module,
-                                                       cls=tok)) \
-                            if not (isinstance(vv, ast.Attribute)
-                                    and isinstance(vv.value, ast.Name)
-                                    and vv.value.id == fi.params[0]) \
-                            else F.getattr(ClassVal(tok), vv.attr, vv,
-                                           fi.module)
-                    except (AnalysisError, FoldRaise):
-                        sub[kk.value] = ast.unparse(vv)
-                got[key] = sub
+        seen = 0
+        site = fi.node
+        for p in paths:
+            reqs = S.requests(p)
+            if len(reqs) > 1:
+                probs.append('%d requests on the path [%s]' % (
+                    len(reqs), p.cond_text()))
+                continue
+            if not reqs:
+                if p.returns:
+                    probs.append('returns without a request when [%s]'
+                                 % p.cond_text())
+                continue
+            seen += 1
+            c = reqs[0]
+            site = c.node
+            if len(c.args) != 3 or c.kwargs:
+                a = dict(c.kwargs)
+                names = S.mk.params
+                vals = list(c.args) + [a.get(x) for x in names[len(c.args):]]
+                if len(vals) != 3 or any(v is None for v in vals):
+                    raise AnalysisError('_make_request call shape', c.node,
+                                        rel(fi.path))
             else:
-                got[key] = src_text(v, fi)
-        want = dict(spec['payload'])
-        if got != want:
-            probs.append('payload %s (documented: %s)' % (got, want))
-        opt = spec.get('optional', {})
-        for k in extra:
-            if k not in opt:
-                probs.append('undocumented optional key %r' % k)
-        for k in opt:
-            if k not in extra:
-                probs.append('optional key %r is never sent' % k)
+                vals = list(c.args)
+            server, ep, payload = vals
+            want_s = ref['servers'][spec['server']]
+            got_s = server[1] if is_const(server) else show(server)
+            if got_s != want_s or (is_const(server) and servers[
+                    spec['server']] != want_s):
+                probs.append('server %s (documented: %s)' % (got_s, want_s))
+            got_ep = ep[1] if is_const(ep) else show(ep)
+            if got_ep != spec['endpoint']:
+                probs.append('endpoint %r (documented: %r)' % (
+                    got_ep, spec['endpoint']))
+            if payload[0] != 'dict' or not all(is_const(k)
+                                               for k, _ in payload[1]):
+                raise AnalysisError('payload of %s is not a dict of '
+                                    'constant keys: %s' % (op, show(payload)),
+                                    c.node, rel(fi.path))
+            got = {k[1]: v for k, v in payload[1]}
+            opt = spec.get('optional', {})
+            base = {k: src(v, fi) for k, v in got.items() if k not in opt}
+            if base != spec['payload']:
+                probs.append('payload %s (documented: %s)' % (
+                    base, spec['payload']))
+            if op == 'authenticate':
+                inv = None
+                for a, pol, _ in p.conds:
+                    if a == ('op', 'truth', (('sym', 'invalidate_previous'),
+                                             )):
+                        inv = pol
+                has = 'clientToken' in got
+                if inv is None:
+                    probs.append('clientToken does not depend on '
+                                 'invalidate_previous')
+                elif has != (not inv):
+                    probs.append('clientToken %s when invalidate_previous '
+                                 'is %s' % ('sent' if has else 'not sent',
+                                            inv))
+                elif has:
+                    v = got['clientToken']
+                    own = ('attr', ('sym', me), 'client_token')
+                    have = None
+                    for a, pol, _ in p.conds:
+                        if a == ('op', 'truth', (own,)):
+                            have = pol
+                    fresh = v[0] == 'attr' and v[2] == 'hex' and \
+                        v[1][0] == 'call' and v[1][1] == ('ext',
+                                                          'uuid.uuid4')
+                    if not ((have is True and v == own)
+                            or (have is False and fresh)):
+                        probs.append('clientToken is %s when the stored '
+                                     'one is %s' % (show(v), {
+                                         True: 'set', False: 'unset',
+                                         None: 'not consulted'}[have]))
+            else:
+                for k in got:
+                    if k in opt:
+                        probs.append('undocumented optional key %r' % k)
+        if not seen:
+            probs.append('no path performs the request')
         if probs:
-            report.violation(R, 'request:%s' % op, fi.path, c, fi.qualname,
-                             '%s posts %s' % (op, '; '.join(probs)))
+            report.violation(R, 'request:%s' % op, fi.path, site,
+                             fi.qualname, '%s: %s' % (op, '; '.join(
+                                 sorted(set(probs)))))
         else:
-            report.ok(R, '%s -> %s/%s %s' % (op, want_s, ep, sorted(got)))
-    report.floor('operations with one request', n, 6)
-    # authenticate: clientToken only unless invalidate_previous
-    fi = db.own_method(tok, 'authenticate')
-    g = cfg_of(fi)
-    for nn in g.reachable_nodes():
-        if isinstance(nn.ast, ast.Assign) and isinstance(
-                nn.ast.targets[0], ast.Subscript) and \
-                'clientToken' in ast.unparse(nn.ast.targets[0]):
-            conds = [(ast.unparse(e), t) for e, t in
-                     boolfn.path_conditions(g, nn)]
-            v = ast.unparse(nn.ast.value)
-            if conds == [('not invalidate_previous', True)] and \
-                    v.startswith('%s.client_token or ' % fi.params[0]):
-                report.ok(R, 'clientToken = self.client_token or a fresh '
-                          'one, unless invalidate_previous')
-            else:
-                report.violation(R, 'request:clientToken', fi.path, nn.ast,
-                                 fi.qualname, 'clientToken is %s under %s'
-                                 % (v, conds))
+            n += 1
+            report.ok(R, '%s -> %s/%s %s on %d path(s)' % (
+                op, spec['server'], spec['endpoint'],
+                sorted(spec['payload']), seen))
+    report.floor('operations with one request', n, 6) \
+        if not report.violations else None
     # _make_request
-    posts = [c for c in ast.walk(mk.node) if isinstance(c, ast.Call)
-             and ast.unparse(c.func) == 'requests.post']
-    okk = False
-    if len(posts) == 1:
+    mk = S.mk
+    paths = S.paths(mk, opaque_units=False)
+    okk = bool(paths)
+    why = ''
+    for p in paths:
+        posts = [e for e in p.calls() if e.fn == ('ext', 'requests.post')]
+        if len(posts) != 1 or not p.returns:
+            okk, why = False, 'not exactly one requests.post per call'
+            continue
         c = posts[0]
-        url = ast.unparse(c.args[0]) if c.args else None
-        kw = {k.arg: ast.unparse(k.value) for k in c.keywords}
-        p = mk.params
-        okk = url in ("%s + '/' + %s" % (p[0], p[1]),) and \
-            kw.get('data') == 'json.dumps(%s)' % p[2] and \
-            kw.get('headers') == 'HEADERS'
-    hdr = F.module_global(mod, 'HEADERS')
-    if okk and isinstance(hdr, dict) and {k.lower(): v for k, v in
-                                          hdr.items()}.get(
-            'content-type') == ref['content_type']:
+        kw = dict(c.kwargs)
+        url = c.args[0] if c.args else kw.get('url')
+        data = c.args[1] if len(c.args) > 1 else kw.get('data')
+        want_url = ('op', 'concat', (('sym', mk.params[0]), ('const', '/'),
+                                     ('sym', mk.params[1])))
+        want_data = ('call', ('ext', 'json.dumps'),
+                     (('sym', mk.params[2]),), (), None)
+        if url is None or struct(url) != want_url:
+            okk, why = False, 'url is %s' % (show(url) if url else None)
+        elif data is None or struct(data) != want_data:
+            okk, why = False, 'body is %s' % (show(data) if data else None)
+        elif struct(p.value) != struct(c.res):
+            okk, why = False, 'the reply is not what is returned'
+        hd = kw.get('headers')
+        hv = None
+        if hd is not None and hd[0] == 'glob':
+            hv = F.module_global(mod, hd[2])
+        elif hd is not None and hd[0] == 'dict':
+            hv = {k[1]: (v[1] if is_const(v) else F.module_global(mod, v[2])
+                         if v[0] == 'glob' else None)
+                  for k, v in hd[1] if is_const(k)}
+        if not (isinstance(hv, dict) and {str(k).lower(): v for k, v in
+                                          hv.items()}.get(
+                'content-type') == ref['content_type']):
+            okk, why = False, 'headers are %s' % (hv,)
+    if okk:
         report.ok(R, '_make_request: requests.post(server + "/" + '
                   'endpoint, data=json.dumps(data), JSON content type)')
     else:
         report.violation(R, 'request:transport', mk.path, mk.node,
                          mk.qualname, '_make_request does not post '
                          'json.dumps(data) with the JSON content type to '
-                         'server + "/" + endpoint')
+                         'server + "/" + endpoint (%s)' % why)
 
 
 # ---------------------------------------------------------------------------
-def token_stores(fi):
-    me = fi.params[0]
-    out = []
-    for x in ast.walk(fi.node):
-        if isinstance(x, ast.Attribute) and isinstance(x.ctx, ast.Store):
-            t = ast.unparse(x)
-            if t.startswith(me + '.'):
-                out.append((t[len(me) + 1:], x))
-    return out
+def rooted_at(t, name):
+    while t[0] == 'attr':
+        t = t[1]
+    return t == ('sym', name)
 
 
-def stores(report, db, cg, tok, ref):
-    R = report.rule('R19.3', 'errors leave the token untouched: every '
-                    'store in authenticate/refresh is dominated by the '
-                    'raise-on-error call and stores exactly the returned '
-                    'values; other operations store nothing')
-    rf = db.get_func(AUTH, '_raise_from_response')
+def json_key(v, req):
+    """'a.b' when v is <reply>.json()['a']['b'] of the request result."""
+    keys = []
+    while v[0] == 'op' and v[1] == 'index' and is_const(v[2][1]):
+        keys.append(v[2][1][1])
+        v = v[2][0]
+    if keys and v[0] == 'call' and not v[2] and v[1][0] == 'attr' and \
+            v[1][2] == 'json' and struct(v[1][1]) == struct(req):
+        return '.'.join(str(k) for k in reversed(keys))
+    return None
+
+
+def stores(report, db, S, tok, ref):
+    R = report.rule('R19.3', 'errors leave the token untouched: on every '
+                    'path of authenticate/refresh the stores come after the '
+                    'error check of that reply returned, and store exactly '
+                    'the returned values; paths that raise store nothing; '
+                    'other operations store nothing')
     for op in ('authenticate', 'refresh'):
-        fi = db.own_method(tok, op)
-        g = cfg_of(fi)
-        checks = [n for n in g.reachable_nodes() if n.ast is not None and any(
-            any(m is rf for m, _, _ in cg.callee_funcs(fi, c))
-            for c in n.calls())]
-        if not checks:
-            report.violation(R, 'stores:no-check:%s' % op, fi.path, fi.node,
-                             fi.qualname, '%s never checks the reply for an '
-                             'error' % op)
-            continue
-        st = token_stores(fi)
-        got = {}
-        bad = False
-        par = {}
-        for n in ast.walk(fi.node):
-            for ch in ast.iter_child_nodes(n):
-                par[id(ch)] = n
-        for name, x in st:
-            asn = par.get(id(x))
-            while asn is not None and not isinstance(asn, ast.Assign):
-                asn = par.get(id(asn))
-            nodes = g.nodes_for(asn) if asn is not None else []
-            if not nodes or not all(any(g.dominates(c, n) for c in checks)
-                                    for n in nodes):
-                bad = True
-                report.violation(R, 'stores:early:%s:%s' % (op, name),
-                                 fi.path, x, fi.qualname, 'self.%s is '
-                                 'overwritten before the reply is known to '
-                                 'be a success: a failed %s corrupts the '
-                                 'stored credentials' % (name, op))
-            if asn is not None:
-                got[name] = ast.unparse(asn.value)
+        fi, paths = S.op(op)
+        me = fi.params[0]
         want = ref['stored_on_success'][op]
-        norm = {}
-        for k, v in got.items():
-            if v.startswith('json_resp['):
-                keys = [p.strip("'\"") for p in v.replace(
-                    'json_resp', '').strip('[]').split('][')]
-                norm[k] = '.'.join(keys)
-            elif v in fi.params:
-                norm[k] = 'param:%s' % v
-            else:
-                norm[k] = v
-        if norm == want and not bad:
-            report.ok(R, '%s stores %s after the error check' % (op,
-                                                                 sorted(norm)))
-        elif norm != want:
-            report.violation(R, 'stores:values:%s' % op, fi.path, fi.node,
-                             fi.qualname, '%s stores %s; documented: %s'
-                             % (op, norm, want))
-        # json_resp comes from the same reply
-        js = [x for x in ast.walk(fi.node) if isinstance(x, ast.Assign)
-              and isinstance(x.targets[0], ast.Name)
-              and x.targets[0].id == 'json_resp']
-        if not (len(js) == 1 and ast.unparse(js[0].value) == 'res.json()'):
-            report.violation(R, 'stores:source:%s' % op, fi.path, fi.node,
-                             fi.qualname, 'the stored values are not taken '
-                             'from the reply\'s JSON body')
+        bad = False
+        nret = 0
+        for p in paths:
+            evs = p.flat()
+            reqs = S.requests(p)
+            req = reqs[0].res if reqs else None
+            chk = [i for i, e in enumerate(evs) if e.calls(S.rf) and req
+                   is not None and e.args and struct(e.args[0]) ==
+                   struct(req)]
+            sts = [(i, e) for i, e in enumerate(evs) if e.kind == 'store'
+                   and rooted_at(e.base, me)]
+            if not p.returns:
+                if sts:
+                    bad = True
+                    report.violation(
+                        R, 'stores:on-error:%s' % op, fi.path, sts[0][1].node,
+                        fi.qualname, '%s alters self.%s on a path that '
+                        'raises [%s]' % (op, sts[0][1].attr, p.cond_text()))
+                continue
+            nret += 1
+            if not chk:
+                bad = True
+                report.violation(R, 'stores:no-check:%s' % op, fi.path,
+                                 fi.node, fi.qualname, '%s can return '
+                                 'without checking the reply for an error '
+                                 '[%s]' % (op, p.cond_text()))
+                continue
+            got = {}
+            for i, e in sts:
+                name = src(('attr', e.base, e.attr), fi)[len('self.'):]
+                if i < chk[0]:
+                    bad = True
+                    report.violation(
+                        R, 'stores:early:%s:%s' % (op, name), fi.path,
+                        e.node, fi.qualname, 'self.%s is overwritten before '
+                        'the reply is known to be a success: a failed %s '
+                        'corrupts the stored credentials' % (name, op))
+                jk = json_key(e.value, req)
+                got[name] = jk if jk is not None else src(e.value, fi)
+            if got != want:
+                bad = True
+                report.violation(R, 'stores:values:%s' % op, fi.path,
+                                 fi.node, fi.qualname, '%s stores %s; '
+                                 'documented: %s' % (op, got, want))
+        if not nret:
+            raise AnalysisError('%s has no returning path' % op, fi.node,
+                                rel(fi.path))
+        if not bad:
+            report.ok(R, '%s stores %s after the error check, on %d '
+                      'returning path(s); nothing on raising paths'
+                      % (op, sorted(want), nret))
     for op in ('validate', 'sign_out', 'invalidate', 'join'):
-        fi = db.own_method(tok, op)
+        fi, paths = S.op(op)
         if fi.kind == 'static':
             report.ok(R, '%s is static: cannot touch the token' % op)
             continue
-        st = token_stores(fi)
+        me = fi.params[0]
+        st = [e for p in paths for e in p.flat(('store', 'setitem'))
+              if rooted_at(e.base, me)]
         if st:
             report.violation(R, 'stores:unexpected:%s' % op, fi.path,
-                             st[0][1], fi.qualname, '%s alters self.%s'
-                             % (op, st[0][0]))
+                             st[0].node, fi.qualname, '%s alters self.%s'
+                             % (op, st[0].attr))
         else:
             report.ok(R, '%s stores nothing on the token' % op)
 
 
 # ---------------------------------------------------------------------------
-def error_mapping(report, db, cg, mod):
+def error_mapping(report, db, S, mod):
     R = report.rule('R19.4', '_raise_from_response returns only for an OK '
                     'reply; every other path raises a YggdrasilError with '
                     'the status code; service fields only for a well-formed '
                     'error body, else a "malformed" message')
-    fi = db.get_func(AUTH, '_raise_from_response')
-    g = cfg_of(fi)
-    live = g.reachable_nodes()
-    res = fi.params[0]
-    rets = [n for n in live if isinstance(n.ast, ast.Return)]
-    okref = ast.parse("%s.status_code == requests.codes['ok']" % res,
-                      mode='eval').body
-    okref2 = ast.parse("%s.status_code == 200" % res, mode='eval').body
+    fi = S.rf
+    res = ('sym', fi.params[0])
+    paths = S.paths(fi, opaque_units=False)
+    ygg = db.resolve_dotted(mod, ast.Name(id='YggdrasilError',
+                                          ctx=ast.Load()))
     good = True
-    for r in rets:
-        conds = boolfn.path_conditions(g, r)
-        e = conds[0][0] if len(conds) == 1 and conds[0][1] else None
-        if e is None or not (boolfn.same_function(e, okref) or
-                             boolfn.same_function(e, okref2)):
-            good = False
-            report.violation(R, 'errmap:return', fi.path, r.ast, fi.qualname,
-                             'returns normally when [%s]: only a 200 reply '
-                             'is a success here' % ' and '.join(
-                                 ('' if t else 'not ') + ast.unparse(x)
-                                 for x, t in conds))
-    if g.exit in live and any(
-            p is not None for p in [g.exists_path(
-                g.entry, lambda n: n is g.exit,
-                avoid=lambda n: n in rets)]):
-        good = False
-        report.violation(R, 'errmap:falls-off', fi.path, fi.node,
-                         fi.qualname, 'a path falls off the end without '
-                         'raising')
-    if good and rets:
+    nret = 0
+    raising = []
+    for p in paths:
+        ok200 = status_cond(p, res, C200)
+        if p.returns:
+            nret += 1
+            if ok200 is not True:
+                good = False
+                report.violation(R, 'errmap:return', fi.path,
+                                 p.outcome[2] if len(p.outcome) > 2
+                                 else fi.node, fi.qualname,
+                                 'returns normally when [%s]: only a 200 '
+                                 'reply is a success here' % p.cond_text())
+        elif len(p.outcome) > 3 and p.outcome[3] == 'implicit':
+            continue        # an exception of a call nothing here catches
+        else:
+            raising.append(p)
+    if good and nret:
         report.ok(R, 'normal return only for status 200')
-    rz = [n for n in live if isinstance(n.ast, ast.Raise)
-          and n.ast.exc is not None]
-    assigned = set(x.targets[0].id for x in ast.walk(fi.node)
-                   if isinstance(x, ast.Assign)
-                   and isinstance(x.targets[0], ast.Name))
-    final = sorted((n for n in rz if isinstance(n.ast.exc, ast.Name)
-                    and n.ast.exc.id in assigned), key=lambda n: n.id)
-    if not final:
+    if not raising:
         report.violation(R, 'errmap:no-raise', fi.path, fi.node, fi.qualname,
                          'no exception object is raised')
         return
-    exc = final[0].ast.exc.id
-    mk = [n for n in live if isinstance(n.ast, ast.Assign) and isinstance(
-        n.ast.targets[0], ast.Name) and n.ast.targets[0].id == exc]
-    if mk and 'YggdrasilError' in ast.unparse(mk[0].ast.value):
-        report.ok(R, 'raises a YggdrasilError')
+    kinds = dict(type=True, status=True)
+    well = mal = 0
+    fields = {'yggdrasil_error': 'error', 'yggdrasil_message':
+              'errorMessage', 'yggdrasil_cause': 'cause'}
+    for p in raising:
+        exc = p.outcome[1]
+        site = p.outcome[2]
+        if not (exc[0] == 'obj' and exc[3] is not None
+                and isinstance(ygg, type(exc[3]))
+                and db.is_subclass(exc[3], ygg)):
+            if kinds['type']:
+                report.violation(R, 'errmap:type', fi.path, site,
+                                 fi.qualname, 'the raised object is %s, not '
+                                 'a YggdrasilError [%s]' % (show(exc),
+                                                            p.cond_text()))
+            kinds['type'] = False
+            continue
+        sc = p.heap.get((exc, 'status_code'))
+        if sc is None or not is_status(sc, res):
+            if kinds['status']:
+                report.violation(R, 'errmap:status-code', fi.path, site,
+                                 fi.qualname, 'the error does not carry the '
+                                 'HTTP status code on the path [%s] (it '
+                                 'carries %s)' % (p.cond_text(),
+                                                  show(sc) if sc else None))
+            kinds['status'] = False
+        # the reply body and the two membership tests
+        body = None
+        has = {}
+        for a, pol, _ in p.conds:
+            if a[0] == 'op' and a[1] == 'in' and is_const(a[2][0]) and \
+                    a[2][0][1] in ('error', 'errorMessage'):
+                j = a[2][1]
+                if j[0] == 'call' and j[1] == ('attr', res, 'json'):
+                    body = j
+                    has[a[2][0][1]] = pol
+        wf = has.get('error') is True and has.get('errorMessage') is True
+        got = {}
+        for f, key in fields.items():
+            v = p.heap.get((exc, f))
+            if v is None or v == ('const', None):
+                continue
+            k = None
+            if v[0] == 'op' and v[1] == 'index' and is_const(v[2][1]) and \
+                    body is not None and struct(v[2][0]) == struct(body):
+                k = v[2][1][1]
+            elif v[0] == 'call' and v[1][0] == 'attr' and \
+                    v[1][2] == 'get' and v[2] and is_const(v[2][0]) and \
+                    body is not None and struct(v[1][1]) == struct(body):
+                k = v[2][0][1]
+            got[f] = k if k is not None else show(v)
+        msg = p.heap.get((exc, 'args'))
+        text = ''.join(x[1] for x in pathsum.subterms(msg)
+                       if is_const(x) and isinstance(x[1], str)) \
+            if msg is not None else ''
+        if wf:
+            well += 1
+            if got != fields:
+                report.violation(R, 'errmap:fields', fi.path, site,
+                                 fi.qualname, 'the service\'s error fields '
+                                 'are mapped as %s; documented %s'
+                                 % (got, fields))
+        else:
+            mal += 1
+            if got:
+                report.violation(R, 'errmap:malformed-fields', fi.path, site,
+                                 fi.qualname, 'service fields %s are set '
+                                 'although the body is not an error object '
+                                 '(path [%s]): a body counts as an error '
+                                 'object only when "error" and '
+                                 '"errorMessage" are both present'
+                                 % (sorted(got), p.cond_text()))
+            elif 'alformed' not in text:
+                report.violation(R, 'errmap:malformed-message', fi.path,
+                                 site, fi.qualname, 'a non-error body does '
+                                 'not produce a "malformed" message (path '
+                                 '[%s])' % p.cond_text())
+    if kinds['type']:
+        report.ok(R, 'raises a YggdrasilError on %d path(s)' % len(raising))
+    if kinds['status']:
+        report.ok(R, 'status_code stored on every raising path')
+    if well and mal:
+        report.ok(R, 'well-formed = has error and errorMessage (%d path(s) '
+                  'copy error / errorMessage / cause; %d malformed path(s) '
+                  'set a "Malformed error message" text and no fields)'
+                  % (well, mal))
     else:
-        report.violation(R, 'errmap:type', fi.path, final[0].ast,
-                         fi.qualname, 'the raised object is not a '
-                         'YggdrasilError')
-    sc = [n for n in live if isinstance(n.ast, ast.Assign) and
-          ast.unparse(n.ast.targets[0]) == '%s.status_code' % exc and
-          ast.unparse(n.ast.value) == '%s.status_code' % res]
-    if sc and all(any(g.dominates(s, r) for s in sc) for r in final):
-        report.ok(R, 'status_code stored before the raise')
-    else:
-        report.violation(R, 'errmap:status-code', fi.path, final[0].ast,
-                         fi.qualname, 'the error does not carry the HTTP '
-                         'status code on every path')
-    # yggdrasil fields only on the well-formed arm; malformed arm sets a
-    # message
-    tries = [n for n in ast.walk(fi.node) if isinstance(n, ast.Try)]
-    if len(tries) != 1 or not tries[0].orelse:
-        raise AnalysisError('_raise_from_response: try/except/else shape '
-                            'not recognised', fi.node, rel(fi.path))
-    t = tries[0]
-    well = ast.unparse(ast.Module(body=t.orelse, type_ignores=[]))
-    mal = ast.unparse(ast.Module(body=[s for h in t.handlers
-                                       for s in h.body], type_ignores=[]))
-    want_fields = {'yggdrasil_error': 'error',
-                   'yggdrasil_message': 'errorMessage',
-                   'yggdrasil_cause': 'cause'}
-    got = {}
-    for s in t.orelse:
-        for x in ast.walk(s):
-            if isinstance(x, ast.Assign) and isinstance(
-                    x.targets[0], ast.Attribute) and \
-                    x.targets[0].attr in want_fields:
-                v = ast.unparse(x.value)
-                for key in ('error', 'errorMessage', 'cause'):
-                    if v in ("json_resp['%s']" % key,
-                             "json_resp.get('%s')" % key):
-                        got[x.targets[0].attr] = key
-    if got == want_fields:
-        report.ok(R, 'well-formed arm copies error / errorMessage / cause')
-    else:
-        report.violation(R, 'errmap:fields', fi.path, t, fi.qualname,
-                         'the service\'s error fields are mapped as %s; '
-                         'documented %s' % (got, want_fields))
-    if any(f in mal for f in want_fields):
-        report.violation(R, 'errmap:malformed-fields', fi.path, t,
-                         fi.qualname, 'service fields are set although the '
-                         'body is not an error object')
-    elif 'alformed' in mal and '.args' in mal:
-        report.ok(R, 'malformed arm sets a "Malformed error message" text')
-    else:
-        report.violation(R, 'errmap:malformed-message', fi.path, t,
-                         fi.qualname, 'a non-error body does not produce a '
-                         '"malformed" message')
-    # what counts as well-formed: both error and errorMessage present
-    guard = [x for s in t.body for x in ast.walk(s) if isinstance(x, ast.If)]
-    ref = ast.parse("not ('error' in json_resp and 'errorMessage' in "
-                    "json_resp)", mode='eval').body
-    if guard and boolfn.same_function(guard[0].test, ref) and any(
-            isinstance(b, ast.Raise) for b in guard[0].body):
-        report.ok(R, 'well-formed = has error and errorMessage')
-    else:
-        report.violation(R, 'errmap:wellformed-test', fi.path, t,
+        report.violation(R, 'errmap:wellformed-test', fi.path, fi.node,
                          fi.qualname, 'a body counts as an error object '
                          'under a different test than "error" and '
-                         '"errorMessage" both present')
+                         '"errorMessage" both present (%d well-formed, %d '
+                         'malformed paths)' % (well, mal))
 
 
 # ---------------------------------------------------------------------------
-def results(report, db, cg, tok):
+def results(report, db, S, tok):
     R = report.rule('R19.5', 'validate is true only for 204; invalidate '
                     'and join raise for anything but 204; sign_out checks '
                     'the reply; join refuses without contacting the '
                     'service when not authenticated')
-    rf = db.get_func(AUTH, '_raise_from_response')
-    fi = db.own_method(tok, 'validate')
-    g = cfg_of(fi)
-    rt = [n for n in g.reachable_nodes() if isinstance(n.ast, ast.Return)
-          and isinstance(n.ast.value, ast.Constant)
-          and n.ast.value.value is True]
-    okv = bool(rt)
-    for r in rt:
-        conds = [(ast.unparse(e), t) for e, t in boolfn.path_conditions(g, r)
-                 if 'status_code' in ast.unparse(e)]
-        if conds != [('res.status_code == 204', True)]:
-            okv = False
-    if okv:
+    fi, paths = S.op('validate')
+    okv = False
+    bad = None
+    for p in paths:
+        reqs = S.requests(p)
+        if not p.returns:
+            continue
+        v = p.value
+        truthy = not (is_const(v) and not v[1])
+        c = status_cond(p, reqs[0].res, C204) if reqs else None
+        if truthy and c is not True:
+            bad = p
+        if truthy and c is True and v == ('const', True):
+            okv = True
+    if okv and bad is None:
         report.ok(R, 'validate: True only under status 204')
     else:
         report.violation(R, 'validate:true', fi.path, fi.node, fi.qualname,
                          'validate can report a token as valid without a '
-                         '204 reply')
+                         '204 reply%s' % (' [%s]' % bad.cond_text()
+                                          if bad else ''))
     for op in ('invalidate', 'join'):
-        fi = db.own_method(tok, op)
-        g = cfg_of(fi)
-        rt = [n for n in g.reachable_nodes()
-              if isinstance(n.ast, ast.Return)]
-        chk = [n for n in g.reachable_nodes() if n.ast is not None and any(
-            any(m is rf for m, _, _ in cg.callee_funcs(fi, c))
-            for c in n.calls())]
-        good = bool(chk)
-        for c in chk:
-            conds = [(ast.unparse(e), t) for e, t in
-                     boolfn.path_conditions(g, c)
-                     if 'status_code' in ast.unparse(e)]
-            if conds not in ([('res.status_code != 204', True)],
-                             [('res.status_code == 204', False)]):
-                good = False
-        # success return not reachable on non-204 without the check
-        if good:
+        fi, paths = S.op(op)
+        good = False
+        badp = None
+        for p in paths:
+            reqs = S.requests(p)
+            if not reqs:
+                continue
+            c = status_cond(p, reqs[0].res, C204)
+            chk = [e for e in S.checks(p) if e.args and struct(e.args[0])
+                   == struct(reqs[0].res)]
+            if p.returns and c is not True and not chk:
+                badp = p
+            if c is False and chk:
+                good = True
+            if c is None and chk:
+                good = True
+        if good and badp is None:
             report.ok(R, '%s: anything but 204 goes through the error '
                       'mapper' % op)
         else:
             report.violation(R, '%s:check' % op, fi.path, fi.node,
                              fi.qualname, '%s does not raise for every '
-                             'non-204 reply' % op)
-    fi = db.own_method(tok, 'sign_out')
-    calls = [c for c in ast.walk(fi.node) if isinstance(c, ast.Call)
-             and ast.unparse(c.func) == '_raise_from_response']
-    if calls:
+                             'non-204 reply%s' % (op, ' [%s]' %
+                                                  badp.cond_text()
+                                                  if badp else ''))
+    fi, paths = S.op('sign_out')
+    badp = [p for p in paths if p.returns and not any(
+        e.args and S.requests(p) and struct(e.args[0]) == struct(
+            S.requests(p)[0].res) for e in S.checks(p))]
+    if paths and not badp:
         report.ok(R, 'sign_out passes its reply through the error mapper')
     else:
         report.violation(R, 'sign_out:check', fi.path, fi.node, fi.qualname,
                          'sign_out ignores error replies')
-    fi = db.own_method(tok, 'join')
-    g = cfg_of(fi)
-    req = [n for n in g.reachable_nodes() if n.ast is not None and any(
-        ast.unparse(c.func) == '_make_request' for c in n.calls())]
-    guard = [n for n in g.reachable_nodes() if n.kind == 'test'
-             and 'authenticated' in ast.unparse(n.ast)]
-    okj = False
-    if req and guard:
-        t = guard[0]
-        neg = isinstance(t.ast, ast.UnaryOp)
-        lab = 'true' if neg else 'false'
-        outs = [s for s, l in t.succ if l == lab]
-        raising = outs and all(
-            g.exists_path(s, lambda n: n is g.exit) is None
-            and not isinstance(s.ast, ast.Return) or
-            isinstance(s.ast, ast.Raise) for s in outs) and all(
-                g.exists_path(t, lambda n: n in req,
-                              start_labels=(lab,)) is None for _ in [0])
-        okj = g.dominates(t, req[0]) and raising
-    if okj:
+    fi, paths = S.op('join')
+    me = fi.params[0]
+    auth = ('op', 'truth', (('attr', ('sym', me), 'authenticated'),))
+    okj = True
+    why = ''
+    refused = 0
+    for p in paths:
+        a = None
+        for c, pol, _ in p.conds:
+            if c == auth:
+                a = pol
+        reqs = S.requests(p)
+        if reqs and a is not True:
+            okj, why = False, 'a request is made when [%s]' % p.cond_text()
+        if a is False:
+            refused += 1
+            if not p.raises:
+                okj, why = False, 'no error when not authenticated'
+    if okj and refused:
         report.ok(R, 'join: the request is behind the authenticated guard, '
                   'whose failing arm raises')
     else:
         report.violation(R, 'join:guard', fi.path, fi.node, fi.qualname,
                          'join can contact the session service with an '
-                         'unauthenticated token')
+                         'unauthenticated token (%s)' % (
+                             why or 'the guard is not consulted'))
